@@ -8,13 +8,16 @@ namespace TmVerif.Facts
 /-- One `for … range X` statement whose `X` has a map type.
 `file` is relative to the repository root, `func` the enclosing top-level function (methods as
 `Recv.name`; function literals belong to the declaration that contains them; `-` outside any),
-`hash` the sha256 of the loop statement printed by go/printer without comments.
+`hash` the sha256 (first 16 hex digits) of the loop statement printed by go/printer without comments and
+with white space collapsed, `ctx` the same hash of the whole enclosing declaration (for loops whose
+order independence depends on code after the loop, e.g. the sort of collect-then-sort).
 `kind` is left empty by the extractor. -/
 structure MapRangeSite where
   file : String
   func : String
   hash : String
   kind : String
+  ctx : String
   deriving DecidableEq, Repr, Inhabited
 
 /-- A `go` statement or a `select` statement (`what` = "go" / "select"). -/
